@@ -40,6 +40,19 @@ mod watchdog {
     pub fn end() { DEADLINE.store(0, Ordering::Relaxed) }
 }
 
+/// `iana all`: every `IanaTag` variant: `<name>=<u64::from(variant)>/<hex of Encoder::tag(variant)>/<IanaTag::try_from(Tag::new(that number))>`
+fn iana() -> String {
+    use minicbor::data::{IanaTag, Tag};
+    let vs: [(&str, IanaTag); 41] = [("DateTime", IanaTag::DateTime), ("Timestamp", IanaTag::Timestamp), ("PosBignum", IanaTag::PosBignum), ("NegBignum", IanaTag::NegBignum), ("Decimal", IanaTag::Decimal), ("Bigfloat", IanaTag::Bigfloat), ("ToBase64Url", IanaTag::ToBase64Url), ("ToBase64", IanaTag::ToBase64), ("ToBase16", IanaTag::ToBase16), ("Cbor", IanaTag::Cbor), ("Uri", IanaTag::Uri), ("Base64Url", IanaTag::Base64Url), ("Base64", IanaTag::Base64), ("Regex", IanaTag::Regex), ("Mime", IanaTag::Mime), ("HomogenousArray", IanaTag::HomogenousArray), ("TypedArrayU8", IanaTag::TypedArrayU8), ("TypedArrayU8Clamped", IanaTag::TypedArrayU8Clamped), ("TypedArrayU16B", IanaTag::TypedArrayU16B), ("TypedArrayU32B", IanaTag::TypedArrayU32B), ("TypedArrayU64B", IanaTag::TypedArrayU64B), ("TypedArrayU16L", IanaTag::TypedArrayU16L), ("TypedArrayU32L", IanaTag::TypedArrayU32L), ("TypedArrayU64L", IanaTag::TypedArrayU64L), ("TypedArrayI8", IanaTag::TypedArrayI8), ("TypedArrayI16B", IanaTag::TypedArrayI16B), ("TypedArrayI32B", IanaTag::TypedArrayI32B), ("TypedArrayI64B", IanaTag::TypedArrayI64B), ("TypedArrayI16L", IanaTag::TypedArrayI16L), ("TypedArrayI32L", IanaTag::TypedArrayI32L), ("TypedArrayI64L", IanaTag::TypedArrayI64L), ("TypedArrayF16B", IanaTag::TypedArrayF16B), ("TypedArrayF32B", IanaTag::TypedArrayF32B), ("TypedArrayF64B", IanaTag::TypedArrayF64B), ("TypedArrayF128B", IanaTag::TypedArrayF128B), ("TypedArrayF16L", IanaTag::TypedArrayF16L), ("TypedArrayF32L", IanaTag::TypedArrayF32L), ("TypedArrayF64L", IanaTag::TypedArrayF64L), ("TypedArrayF128L", IanaTag::TypedArrayF128L), ("MultiDimArrayR", IanaTag::MultiDimArrayR), ("MultiDimArrayC", IanaTag::MultiDimArrayC)];
+    vs.iter().map(|(n, v)| {
+        let num = u64::from(*v);
+        let mut e = minicbor::Encoder::new(Vec::new());
+        let bytes = match e.tag(*v) { Ok(_) => util::hex(e.writer()), Err(_) => "err".into() };
+        let back = match IanaTag::try_from(Tag::new(num)) { Ok(b) => format!("{:?}", b), Err(_) => "unknown".into() };
+        format!("{}={}/{}/{}", n, num, bytes, back)
+    }).collect::<Vec<_>>().join(",")
+}
+
 fn main() {
     watchdog::start();
     std::panic::set_hook(Box::new(|_| {}));
@@ -81,6 +94,7 @@ fn dispatch(w: &[&str]) -> String {
         "fnarrow" => floatop::run_narrow(&w[1..]),
         "sink" => sinkop::run_raw(&w[1..]), "sinkenc" => sinkop::run_enc(&w[1..]), "sinkval" => sinkop::run_val(&w[1..]), "encseq" => sinkop::run_encseq(&w[1..]), "sinkiter" => sinkop::run_iter(&w[1..]),
         "display" => dispop::run(&w[1..]),
+        "iana" => iana(),
         "cli" => dispop::run_cli(&w[1..]),
         "displayf" => dispop::run_f(&w[1..]),
         "displayat" => dispop::run_at(&w[1..]),
